@@ -2,6 +2,9 @@ package main
 
 import (
 	"fmt"
+	"go/ast"
+	"go/types"
+	"strconv"
 	"os"
 	"runtime/pprof"
 	"path/filepath"
@@ -50,6 +53,8 @@ func main() {
 		}()
 	}
 	switch os.Args[1] {
+	case "shapes":
+		cmdShapes()
 	case "fn":
 		cmdFn(os.Args[2:])
 	case "check":
@@ -172,4 +177,58 @@ func cmdFn(args []string) {
 	}
 	fmt.Printf("obligation instances=%d ok=%d failed=%d  (%.1fs)\n", len(res), ok, bad, time.Since(t0).Seconds())
 	_ = strings.Join
+}
+
+// cmdShapes prints `<contract file>\t<key>\t<shape>` for every contract whose function exists (used by bin/shapes to
+// write the `shape` clauses).
+func cmdShapes() {
+	eng := newEngine()
+	var pats []string
+	for _, rel := range contractPackages(eng.verif) {
+		pats = append(pats, "./"+rel)
+	}
+	pats = append(pats, depPackages(eng.verif)...)
+	if err := eng.load(pats, nil); err != nil {
+		fmt.Fprintln(os.Stderr, "load:", err)
+		os.Exit(2)
+	}
+	for _, p := range eng.pkgs {
+		if p.cf == nil || !strings.HasPrefix(p.PkgPath, modPath) {
+			continue
+		}
+		for _, k := range p.cf.Order {
+			ct := p.cf.Contracts[k]
+			if ct.Extern || strings.HasPrefix(k, "$") {
+				continue
+			}
+			var decl *ast.FuncDecl
+			var sig *types.Signature
+			if i := strings.LastIndex(k, "$"); i > 0 {
+				_, outer := p.findFunc(k[:i])
+				n, _ := strconv.Atoi(k[i+1:])
+				if outer != nil && outer.Body != nil {
+					c := 0
+					ast.Inspect(outer.Body, func(x ast.Node) bool {
+						if lit, ok := x.(*ast.FuncLit); ok {
+							c++
+							if c == n && decl == nil {
+								decl = &ast.FuncDecl{Name: ast.NewIdent(k), Type: lit.Type, Body: lit.Body}
+								sig, _ = p.TypesInfo.TypeOf(lit).(*types.Signature)
+							}
+						}
+						return true
+					})
+				}
+			} else {
+				f, d := p.findFunc(k)
+				if f != nil {
+					decl, sig = d, f.Type().(*types.Signature)
+				}
+			}
+			if decl == nil || decl.Body == nil || sig == nil {
+				continue
+			}
+			fmt.Printf("%s\t%s\t%s\n", p.cfSource, k, shapeOf(p, decl, sig))
+		}
+	}
 }
